@@ -576,6 +576,21 @@ Mount(recs, dang) ==
 
 Post(colls, dang) == LET x == AmendAll(colls, <<>>, dang) IN Mount(x[1], x[2])
 
+\* LocalSpans::to_span_records(context): the same amend / mount as the collector, on the caller's
+\* thread, no command.  src = 0: a made-up context; otherwise the context of span src.
+ToRec(t, ls, src) ==
+  LET v == New(t)
+      tok == IF src = 0 THEN <<>> ELSE IF spans[src].st = "live" THEN Issue(src) ELSE <<>>
+      ctx == IF src = 0 THEN [some |-> TRUE, tr |-> 0, id |-> v, smp |-> TRUE]
+             ELSE IF tok # <<>> THEN [some |-> TRUE, tr |-> tok[1].tr, id |-> src, smp |-> tok[1].smp] ELSE [some |-> FALSE]
+      recs == IF ctx.some THEN Post(<<[q |-> lsets[ls], tr |-> ctx.tr, par |-> ctx.id]>>, <<>>)[1] ELSE <<>> IN
+  /\ <<0 - 1 - src, ls>> \notin pushed
+  /\ pushed' = pushed \cup {<<0 - 1 - src, ls>>}
+  /\ Bump(t)
+  /\ Begin(t, <<>>, Ev(t, "torec") @@ [ls |-> ls, v |-> v] @@ (IF src = 0 THEN A!EmptyFn ELSE [src |-> src]),
+           Rt(t, "torec") @@ [ctx |-> ctx, recs |-> recs])
+  /\ UNCHANGED <<spans, lsets, futs, stack, hs, natt>>
+
 RECURSIVE ApplySubmits(_, _, _)
 ApplySubmits(act, subs, stale) ==
   IF subs = <<>> THEN <<act, stale>>
@@ -730,6 +745,7 @@ MenuOp(t) ==
   \/ M("sprops") /\ \E h \in Handles(t) : SAttach(t, h, "props", FALSE)
   \/ M("swith") /\ \E h \in Handles(t) : SWith(t, h)
   \/ M("pushc") /\ \E h \in Handles(t), ls \in DOMAIN lsets : PushC(t, h, ls)
+  \/ M("torec") /\ \E h \in Handles(t) \cup {0}, ls \in DOMAIN lsets : ToRec(t, ls, h)
   \/ M("cancel") /\ \E h \in Handles(t) : Cancel(t, h)
   \/ M("drop") /\ \E h \in Handles(t) : DropSpan(t, h)
   \/ M("ctxl") /\ CtxL(t)
@@ -760,6 +776,7 @@ Step(t, s) ==
     [] s.op = "lcstart" -> LcStart(t)
     [] s.op = "lccollect" -> LcCollect(t)
     [] s.op = "pushc"  -> PushC(t, s.h, s.ls)
+    [] s.op = "torec"  -> ToRec(t, s.ls, IF "src" \in DOMAIN s THEN s.src ELSE 0)
     [] s.op = "ctxl"   -> CtxL(t)
 
 Fixed == \E t \in Threads : Prog[t] # <<>>
